@@ -1612,7 +1612,7 @@ pub fn main(args: &util::Args) {
     // needed" shortcut in any pass decides on, wherever it looks (the operand itself or its sibling).
     for f in 0..N_FORMS {
         let is_op = logical.contains(&f) || other_bin.contains(&f);
-        let reps = if thorough { if f >= 44 { 6 } else { 2 } } else { 1 };
+        let reps = if thorough { if f >= 44 { 3 } else { 1 } } else { 1 };
         for rep in 0..reps {
             let stream = 0x6000_0000u64 + (f * 1000 + rep) as u64;
             let holes = {
